@@ -87,50 +87,13 @@ pub(crate) fn parse_offset(chars: &mut Peekable<Chars<'_>>) -> TemporalResult<Op
         return Err(TemporalError::range().with_message("Invalid offset hour value."));
     }
 
-    let result = Some((hours * 60 + minutes) * sign);
-
-    // We continue parsing for correctness, but we only care about
-    // minute precision
-
-    let next_peek = chars.peek();
-    match next_peek {
-        Some(&':') if sep => _ = chars.next(),
-        Some(&':') => {
-            return Err(TemporalError::range().with_message("offset separators do not align."))
-        }
-        Some(_) => _ = parse_digit_pair(chars),
-        None => return Ok(result),
-    }
-
-    let potential_fraction = chars.next();
-    match potential_fraction {
-        Some(ch) if ch == '.' || ch == ',' => {
-            if !chars.peek().is_some_and(|ch| ch.is_ascii_digit()) {
-                return Err(
-                    TemporalError::range().with_message("fraction separator must have digit after")
-                );
-            }
-        }
-        Some(_) => return Err(TemporalError::range().with_message("Invalid offset")),
-        None => return Ok(result),
-    }
-
-    for _ in 0..9 {
-        let digit_or_end = chars.next().map(|ch| ch.is_ascii_digit());
-        match digit_or_end {
-            Some(true) => {}
-            Some(false) => {
-                return Err(TemporalError::range().with_message("Not a valid fractional second"))
-            }
-            None => break,
-        }
-    }
-
+    // A UTC offset that names a time zone has minute precision (UTCOffset[~SubMinutePrecision]):
+    // nothing may follow the minutes.
     if chars.peek().is_some() {
         return Err(TemporalError::range().with_message("Invalid offset"));
     }
 
-    Ok(result)
+    Ok(Some((hours * 60 + minutes) * sign))
 }
 
 fn parse_digit_pair(chars: &mut Peekable<Chars<'_>>) -> TemporalResult<i16> {
